@@ -3,7 +3,6 @@ package crl
 import (
 	"github.com/gr33nbl00d/caddy-revocation-validator/config"
 	"github.com/gr33nbl00d/caddy-revocation-validator/crl/crlrepository"
-	"github.com/gr33nbl00d/caddy-revocation-validator/crl/crlstore"
 	"github.com/gr33nbl00d/caddy-revocation-validator/zz_verif/verifrt"
 	"go.uber.org/zap"
 )
@@ -33,9 +32,7 @@ func VerifC20_Registry() {
 func VerifC20_Lifecycle() {
 	crlrepository.VerifInstallWorld()
 	verifrt.InstallDirListing()
-	verifrt.Override("github.com/gr33nbl00d/caddy-revocation-validator/crl/crlrepository.NewCRLRepository", func(l *zap.Logger, cfg *config.CRLConfig, t crlstore.StoreType) (error, *crlrepository.Repository) {
-		return nil, crlrepository.VerifNewRepo(t == crlstore.LevelDB, cfg)
-	})
+	crlrepository.VerifInstallRepoConstructor()
 	st := config.Memory
 	if verifrt.Choose(2) == 1 {
 		st = config.Disk
